@@ -19,7 +19,7 @@ import re
 import vlib
 
 NEED = ["TSetKeys", "TAdvance", "TEncrypt", "TFlip", "TTruncate", "TExtend", "TDecryptOpens", "TDecryptKeyGone",
-        "TDecryptModified", "TIndepOpens", "TIndepRefuses"]
+        "TDecryptModified", "TIndepOpens", "TIndepRefuses", "TRecheck", "TReread"]
 NEED_FORGE = ["TForgeResumed", "TForgeResumed13", "TForgeNotResumed", "TSecret"]
 
 
@@ -93,6 +93,10 @@ def _sig(r):
     if r["kind"] == "Forge":
         return "Forge:%s" % ("resumed-with-other-parameters" if not w["carries"] else
                               ("accepted-ticket-did-not-resume" if w["accepted"] else "outcome"))
+    if r["kind"] == "Recheck":
+        return "Recheck:state-returned-by-DecryptTicket-changed-later:%s" % ("became-another-session" if w["becameOther"] else "garbled")
+    if r["kind"] == "Reread":
+        return "Reread:ticket-returned-by-EncryptTicket-changed-later"
     if r["kind"] == "Secret":
         return "Secret:MasterSecret()-differs-from-supplied:via=%s:len=%d->%d" % (w["secvia"], w["suppliedlen"], w["gotlen"])
     return "%s:unexplained" % r["kind"]
@@ -134,6 +138,18 @@ def run(ctx):
     nexh = len(scen)
     if nexh < 1000:
         raise vlib.Machinery("Tickets_MC emitted only %d scenarios" % nexh)
+    # values kept by the caller: all histories over {Encrypt, Decrypt, Recheck, Reread} with several states (same / different sizes):
+    # a state DecryptTicket returned, and a ticket EncryptTicket returned, are re-examined after later calls
+    LH = 5 if q else 6
+    hold = ctx.tlc("Tickets_MC", cfg=_cfg(ctx, "Tickets_Hold_run", "Tickets_Hold", MaxLen=LH, States="{21, 22, 3}" if q else "{21, 22, 3, 5}"),
+                   workers=4 if q else 8, timeout=1500)
+    if hold.violated:
+        raise vlib.Machinery("Tickets_MC (hold): model-level invariant %r violated" % hold.violated)
+    hs = hold.tagged("SCN")
+    nhold = len(hs)
+    if nhold < 1000 or not any(sum(1 for o in h["ops"] if o["op"] == "Decrypt") >= 2 and h["ops"][-1]["op"] == "Recheck" for h in hs):
+        raise vlib.Machinery("Tickets_MC (hold) emitted %d scenarios, none re-examining a state after a second DecryptTicket" % nhold)
+    scen += [dict(h, id=len(scen) + i + 1) for i, h in enumerate(hs)]
     _lap(ctx, "model checking")
     # ------------------------------------------------------------------ 2. random long histories, more keys and states
     sims = []
@@ -269,7 +285,7 @@ def run(ctx):
         "exhaustive": True,
         "exhaustive_scope": "all %d observation-terminated histories of %d steps over 2 keys, 1 state, 2 bit positions, 2 cuts, 2 clock steps, <= 3 tickets; "
                             "all single-bit flips and all prefixes of the tickets of %d compact states (every 7th..13th of 4 large ones in the thorough tier); the forge grid; longer histories are sampled" % (nexh, L, 1 if q else 2),
-        "tickets": {"history_length": L, "scenarios_exhaustive": nexh, "simulated": sims, "sweeps": len(sweeps),
+        "tickets": {"history_length": L, "scenarios_exhaustive": nexh, "hold_history_length": LH, "hold_scenarios_exhaustive": nhold, "simulated": sims, "sweeps": len(sweeps),
                     "events_matched": {a: cov.get(a, 0) for a in NEED}, "rejected": len(rejected), "rejection_signatures": {s: len(l) for s, l in groups.items()}},
         "forge": {"cases": len(cases), "tls13_cases": n13, "accessor_cases": len(secs), "resumed": resumed,
                   "resumed_tls13": sum(1 for es in fper.values() if es[1]["ev"] == "Forge" and es[1]["o"]["cresumed"] and es[1]["p"]["vers"] == 772), "rejected": len(frejected), "rejection_signatures": {s: len(l) for s, l in fgroups.items()},
@@ -305,6 +321,14 @@ def _canaries(ctx, per, bad, fper, fbad):
     es, n = find(good, lambda e: e["ev"] == "Indep" and e["ok"])
     if es:
         muts.append(("indep-ok->refused", [dict(e, ok=False, state=[]) if k == n else e for k, e in enumerate(es)]))
+    es, n = find(good, lambda e: e["ev"] == "Recheck")
+    if es:
+        st = list(es[n]["state"]); st[len(st) // 2] ^= 1
+        muts.append(("recheck-state-byte", [dict(e, state=st) if k == n else e for k, e in enumerate(es)]))
+    es, n = find(good, lambda e: e["ev"] == "Reread")
+    if es:
+        rw = list(es[n]["raw"]); rw[0] ^= 1
+        muts.append(("reread-ticket-byte", [dict(e, raw=rw) if k == n else e for k, e in enumerate(es)]))
     es, n = find(good, lambda e: e["ev"] == "Encrypt")
     if es:
         muts.append(("drop-encrypt", [e for k, e in enumerate(es) if k != n]))
